@@ -11,7 +11,7 @@ against the regenerated file on every run.  Anything outside the fragment raises
 TranslateError; the caller then writes a stub (no functions) so that the rest of the model
 still builds while every theorem about the helpers fails (tie broken).
 """
-import ast, os
+import ast, os, fcntl
 from ..env import VERIF, REPO
 
 OUT = os.path.join(VERIF, "coq", "Gen", "C18Layers.v")
@@ -301,9 +301,30 @@ def _write(text):
             f.write(text)
 
 
-def regenerate(repo=None):
+class GenLock(object):
+    """coq/Gen/C18Layers.v (and ocaml/build/C18) are shared by every process that runs this
+    translator — concurrent `./check C18` runs, setup, other checks calling regen_all — possibly
+    against different trees.  The C18 check holds this lock from regenerate until its model
+    process is running; every other caller of regenerate() takes it for the rewrite."""
+
+    def __enter__(self):
+        d = os.path.dirname(OUT)
+        os.makedirs(d, exist_ok=True)
+        self.f = open(os.path.join(d, ".C18.lock"), "w")
+        fcntl.flock(self.f, fcntl.LOCK_EX)
+        return self
+
+    def __exit__(self, *a):
+        fcntl.flock(self.f, fcntl.LOCK_UN)
+        self.f.close()
+
+
+def regenerate(repo=None, have_lock=False):
     """Rewrite coq/Gen/C18Layers.v.  Returns info (ok flag, id tables).  Never raises:
     on unrecognised source a stub without functions is written and info['ok'] is False."""
+    if not have_lock:
+        with GenLock():
+            return regenerate(repo, True)
     try:
         text, info = translate(repo)
     except (TranslateError, SyntaxError, OSError) as e:
